@@ -56,7 +56,8 @@ PROPS['C19'] = dict(
         [dict(target='atomic-fib', family='atomic_fiber', mode='random', cases=30000, workers=8, timeout=600),
          dict(target='atomic-thr', family='atomic_thread', mode='random', cases=30000, workers=8, timeout=600)],
         [dict(target='atomic-fib', family='atomic_fiber', mode='random', cases=600000, workers=8, timeout=3000),
-         dict(target='atomic-thr', family='atomic_thread', mode='random', cases=600000, workers=8, timeout=3000)]),
+         dict(target='atomic-thr', family='atomic_thread', mode='random', cases=600000, workers=6, timeout=3000),
+         dict(target='atomic-fuzz', family='atomic_fiber', mode='fuzz', cases=4000000, workers=2, timeout=3000, replay_target='atomic-fib')]),
 )
 
 PROPS['C18'] = dict(
@@ -292,7 +293,9 @@ PIPE_ASSUME = ['single OS thread, YACLIB_FAULT=OFF build with coroutines; determ
 PIPE_NOTE = 'Differential against a hand-written model: a shared misunderstanding of the documentation would go unnoticed.'
 def pipe_jobs(fam):
     return q([dict(target='pipeline', family=fam, mode='random', cases=60000, workers=12, timeout=900)],
-             [dict(target='pipeline', family=fam, mode='random', cases=1500000, workers=16, timeout=3000, max_size=200)])
+             [dict(target='pipeline', family=fam, mode='random', cases=1500000, workers=14, timeout=3000, max_size=200)] +
+             ([dict(target='pipeline-fuzz', family='pipefuzz', mode='fuzz', cases=3000000, workers=2, timeout=3000, max_len=256,
+                    replay_target='pipeline')] if fam in ('pipeline', 'lazy') else []))
 PROPS['C02'] = dict(
     level='exploration', assumptions=PIPE_ASSUME, level_note=PIPE_NOTE,
     technique='rapidcheck-generated pipeline programs run through a typed interpreter and compared with a reference model '
